@@ -61,10 +61,13 @@ SETTERS = {
                                  'ZeroWindowProbe': 'ZeroWindowProbe', 'Close': 'Close'},
     'rewind_keep_alive': {'Idle/None': 'Idle', 'Idle/Some': 'Idle', 'Retransmit': 'Retransmit', 'FastRetransmit': 'FastRetransmit',
                           'ZeroWindowProbe': 'ZeroWindowProbe', 'Close': 'Close'},
+    # enabling keep-alive from the API while a retransmission / probe / TIME-WAIT timer runs must not replace that timer
+    'set_keep_alive': {'Idle/None': 'Idle', 'Idle/Some': 'Idle', 'Retransmit': 'Retransmit', 'FastRetransmit': 'FastRetransmit',
+                       'ZeroWindowProbe': 'ZeroWindowProbe', 'Close': 'Close'},
 }
 
 
-@rule('R02.8', ['C02', 'C13'], floor=30, clause='the timer transition table: set_for_retransmit arms a retransmission from every state except TIME-WAIT close; the other setters/rewinders go exactly where their name says')
+@rule('R02.8', ['C02', 'C13'], floor=36, clause='the timer transition table: set_for_retransmit arms a retransmission from every state except TIME-WAIT close; the other setters/rewinders go exactly where their name says')
 def r02_8(ctx):
     """T4: final variant of *self per initial variant for every Timer mutator (a FIN or data segment
     sent while a stale probe/idle timer is armed must still get a retransmission timer)."""
